@@ -28,6 +28,9 @@ Record pstate := mkp {
   reset_dur : Z             (* Parser.resetDuration (ns) *)
 }.
 
+(* claimHistoryResetDuration = 24 * time.Hour :13, in nanoseconds *)
+Definition claim_history_reset_duration : Z := 86400000000000.
+
 (* NewParser :33-37 *)
 Definition new_parser (now dur : Z) : pstate := mkp [] now dur.
 
